@@ -136,12 +136,14 @@ def gen_history(rnd) -> dict | None:
 
     ops = []
     for _ in range(rnd.choice([2, 3, 4])):
-        vals = values(rnd.choice(["ok", "ok", "one", "two"]))
+        kind = rnd.choice(["ok", "ok", "one", "two"])
+        vals = values(kind)
         if vals is None:
             continue
         order = list(names)
         rnd.shuffle(order)
-        ops.append({"op": rnd.choice(["construct", "validate"]), "values": vals, "order": order, "context": rnd.choice([None, None, "fresh", "shared", "shared"])})
+        ops.append({"op": rnd.choice(["construct", "validate"]), "values": vals, "order": order, "context": rnd.choice([None, None, "fresh", "shared", "shared"]),
+                    "several_faults": kind == "two"})
     if not ops:
         return None
     h = {"fields": fields, "ops": ops, "validate_assignment": rnd.random() < 0.3}
@@ -243,7 +245,7 @@ def run(tier: str, seed: int, rep: Report, model: Model) -> dict:
                 rep.violation({"what": "a validation was accepted although the fields are inconsistent (in field order, fresh context)", "step": i, "reference": ref, **rec})
             elif ref["v"] == "accept" and o["v"] != "accept":
                 rep.violation({"what": "a conforming validation was rejected (state shared between validations?)", "step": i, "got": o, "reference": ref, **rec})
-            elif tuple(str(o.get(k)) for k in KEYS) != tuple(str(m.get(k)) for k in KEYS):
+            elif tuple(str(o.get(k)) for k in (("v",) if op.get("several_faults") else KEYS)) != tuple(str(m.get(k)) for k in (("v",) if op.get("several_faults") else KEYS)):
                 rep.disagreement({"what": "validation outcome differs from the model's", "step": i, "got": o, "model": m, **rec})
         if rep.many_violations():
             break
